@@ -59,6 +59,7 @@ pub fn storage_objects(seed: u64, n: u64) -> Vec<(&'static str, String)> {
         let mp = multipath_key(&uni, &mut rng);
         if !mp.is_empty() && n % 3 == 0 {
             out.push(("descriptor", format!("wsh(pk({}))", mp)));
+            out.push(("descriptor-to-walletpolicy", format!("wsh(pk({}))", mp)));
             out.push(("pubkey", mp));
         }
     }
@@ -115,6 +116,13 @@ pub fn storage_objects(seed: u64, n: u64) -> Vec<(&'static str, String)> {
     out.push(("walletpolicy", "wsh(multi(2,@0/**,@1/**))".to_string()));
     out.push(("walletpolicy", "tr(@0/**,{pk(@1/**),and_v(v:pk(@2/<2;3>/*),older(12))})".to_string()));
     out.push(("walletpolicy", "sh(wsh(or_d(pk(@0/**),and_v(v:pkh(@1/**),after(1000)))))".to_string()));
+    {
+        let a = rng.below(20);
+        let b = a + 1 + rng.below(30);
+        out.push(("walletpolicy", format!("wpkh(@0/<{};{}>/*)", a, b)));
+        out.push(("walletpolicy", format!("wsh(multi(2,@0/<{};{}>/*,@1/**))", a, b)));
+        out.push(("walletpolicy", format!("tr(@0/<{};{}>/*,pk(@1/<{};{}>/*))", a, b, b + 1, b + 7)));
+    }
     out
 }
 
@@ -184,6 +192,21 @@ pub fn roundtrip(kind: &str, s: &str) -> Result<(String, String), String> {
         }
         "concrete" => rt!(Concrete<String>),
         "semantic" => rt!(Semantic<String>),
+        "descriptor-to-walletpolicy" => {
+            // object-first: descriptor -> wallet policy -> text -> wallet policy -> descriptor
+            let d = Descriptor::<DescriptorPublicKey>::from_str(s).map_err(|e| format!("parse: {}", e))?;
+            let wp = WalletPolicy::from_descriptor(&d).map_err(|e| format!("parse: from_descriptor: {:?}", e))?;
+            let text = wp.to_string();
+            let back = WalletPolicy::from_str(&text).map_err(|e| format!("re-parse of own output failed: {:?} [{}]", e, text))?;
+            if back.to_string() != text {
+                return Err(format!("wallet policy template is not a fixed point [{}]", text));
+            }
+            let d2 = wp.clone().into_descriptor().map_err(|e| format!("re-parse of own output failed: into_descriptor {:?}", e))?;
+            if d2 != d {
+                return Err(format!("parse(print(x)) != x [{} vs {}]", d2, d));
+            }
+            Ok((text.clone(), text))
+        }
         "walletpolicy" => {
             let a = WalletPolicy::from_str(s).map_err(|e| format!("parse: {:?}", e))?;
             let sa = a.to_string();
@@ -243,7 +266,7 @@ pub fn storage_run(seed: u64, run: u64, doubles: u64, res: &mut StorageResult) {
                 if e.starts_with("parse:") {
                     // strings that are valid by construction (the library's own documented syntax) must
                     // parse; miniscript bodies cut out of unfiltered generator output need not
-                    if matches!(*kind, "concrete" | "semantic" | "pubkey" | "secretkey" | "walletpolicy") {
+                    if matches!(*kind, "concrete" | "semantic" | "pubkey" | "secretkey" | "walletpolicy") && !e.contains("from_descriptor") {
                         res.violation.get_or_insert((format!("valid-text-refused:{}", kind), format!("{}: a string in the library's own syntax does not parse: {} ({})", kind, text, e)));
                         return;
                     }
@@ -516,7 +539,22 @@ fn mutate(r: &mut Rng, base: &[u8], other: &[u8]) -> (Vec<u8>, &'static str) {
 }
 
 fn amplify(r: &mut Rng, leaf: &str) -> (String, &'static str) {
-    match r.below(5) {
+    match r.below(6) {
+        5 => {
+            // near-valid: multipath keys with different numbers of alternatives in one descriptor
+            let x = "tpubDBrgjcxBxnXyL575sHdkpKohWu5qHKoQ7TJXKNrYznh5fVEGBv89hA8ENW7A8MFVpFUSvgLqc4Nj1WZcpePX6rrxviVtPowvMuGF5rdT2Vi";
+            let y = "tpubD6NzVbkrYhZ4WaWSyoBvQwbpLkojyoTZPRsgXELWz3Popb3qkjcJyJUGLnL4qHHoQvao8ESaAstxYSnhyswJ76uZPStJRJCTKvosUCJZL5B";
+            let a = 2 + r.below(3);
+            let b = 2 + r.below(4);
+            let alt = |n: u64| (0..n).map(|i| i.to_string()).collect::<Vec<_>>().join(";");
+            let s = match r.below(4) {
+                0 => format!("tr({}/<{}>/*,pk({}/<{}>/*))", x, alt(a), y, alt(b)),
+                1 => format!("tr({}/<{}>/*,{{pk({}/<{}>/*),pk({}/9/<{}>/*)}})", x, alt(a), y, alt(b), y, alt(a)),
+                2 => format!("wsh(multi(2,{}/<{}>/*,{}/<{}>/*))", x, alt(a), y, alt(b)),
+                _ => format!("sh(wsh(or_d(pk({}/<{}>/*),pk({}/<{}>/*))))", x, alt(a), y, alt(b)),
+            };
+            (s, "multipath_uneven")
+        }
         0 => {
             // deep nesting of and_v beyond the 402 limit
             let d = *r.pick(&[50u64, 200, 401, 402, 403, 1000, 5000]);
@@ -654,7 +692,7 @@ pub fn wire_case(ws: &WireSeeds, r: &mut Rng) -> WireCase {
             };
             if r.chance(1, 6) && kind != "key" {
                 let (s, f) = amplify(r, "pk(A)");
-                let s = if kind == "descriptor" && !s.starts_with("tr(") { format!("wsh({})", s) } else { s };
+                let s = if kind == "descriptor" && !s.starts_with("tr(") && !s.starts_with("wsh(") && !s.starts_with("sh(") { format!("wsh({})", s) } else { s };
                 return WireCase { kind, fault: f, data: s.into_bytes(), aux: vec![] };
             }
             let base = pick_s(r, pool);
